@@ -157,6 +157,19 @@ Fixpoint delay_calls (rings : list (fixed Smp)) (calls : list (list bufs)) (outp
     Ok (fst q, snd p :: snd q)
   end.
 
+(* consecutive calls between which the owner of the graph replaces the node's buffer list
+   (NodeData::buffers is a pub Vec<Buffer>: taken away, put back, resized): every call comes
+   with the buffer list it runs on; only the rings persist *)
+Fixpoint delay_calls_v (rings : list (fixed Smp)) (calls : list (list bufs * bufs))
+  : res (list (fixed Smp) * list bufs) :=
+  match calls with
+  | [] => Ok (rings, [])
+  | (inputs, output) :: t =>
+    let* p := delay_process rings inputs output in
+    let* q := delay_calls_v (fst p) t in
+    Ok (fst q, snd p :: snd q)
+  end.
+
 (* ---- signal.rs ---- *)
 Section SignalNode.
 Context {St : Type}.
@@ -193,6 +206,16 @@ Fixpoint signal_calls (n : nat) (st : St) (output : bufs) : res (St * list bufs)
   | S k =>
     let* p := signal_process st [] output in
     let* q := signal_calls k (fst p) (snd p) in
+    Ok (fst q, snd p :: snd q)
+  end.
+
+(* one call per given buffer list (see delay_calls_v) *)
+Fixpoint signal_calls_v (outs : list bufs) (st : St) : res (St * list bufs) :=
+  match outs with
+  | [] => Ok (st, [])
+  | output :: t =>
+    let* p := signal_process st [] output in
+    let* q := signal_calls_v t (fst p) in
     Ok (fst q, snd p :: snd q)
   end.
 
